@@ -4,7 +4,9 @@ package main
 import (
 	"context"
 	"fmt"
+	"github.com/criyle/go-sandbox/pkg/seccomp/libseccomp"
 	"os"
+	"strings"
 	"syscall"
 	"time"
 
@@ -45,6 +47,23 @@ func alive(pid int) bool {
 
 var env container.Environment
 
+// strict answers for the one path the program probes and kills on anything else (an empty or mangled path would be somebody's bug)
+type strict struct{ ban bool }
+
+func (s strict) path(p string) ptracer.TraceAction {
+	if strings.HasSuffix(p, "/c11probe/marker") {
+		if s.ban {
+			return ptracer.TraceBan
+		}
+		return ptracer.TraceAllow
+	}
+	return ptracer.TraceKill
+}
+func (s strict) CheckRead(p string) ptracer.TraceAction  { return s.path(p) }
+func (s strict) CheckWrite(p string) ptracer.TraceAction { return s.path(p) }
+func (s strict) CheckStat(p string) ptracer.TraceAction  { return s.path(p) }
+func (s strict) CheckSyscall(string) ptracer.TraceAction { return ptracer.TraceAllow }
+
 func main() {
 	hx.Init()
 	scratch := os.Getenv("VERIF_SCRATCH")
@@ -79,6 +98,16 @@ func main() {
 			if c["syncfunc"] == true {
 				r.SyncFunc = sync
 			}
+			run = func() runner.Result { return r.Run(ctx) }
+		case "ptrace_busy":
+			// a program that traps all the time (the tracer is almost always inside a trap when the cancellation arrives); the policy
+			// bans or allows the probed path, and refuses (kill) anything else it is shown
+			f, ferr := (&libseccomp.Builder{Trace: []string{"access"}, Default: libseccomp.ActionAllow}).Build()
+			if ferr != nil {
+				return map[string]any{"harness_err": ferr.Error()}
+			}
+			r := &ptrace.Runner{Args: append([]string{hx.Target()}, args...), Env: []string{}, WorkDir: "/", Limit: limit,
+				Seccomp: f, Handler: strict{ban: c["policy"] == "ban"}, Files: files}
 			run = func() runner.Result { return r.Run(ctx) }
 		case "ns":
 			r, err := hx.NsRunner(scratch, append([]string{"/vb/probe_target"}, args...))
